@@ -218,11 +218,25 @@ class Grammar:
                 self._gen(e[1], rng, budget, out, rep)
 
 
-def render(tokens, rng):
-    """tokens separated by blanks; a newline after ; { } so that lines (and columns) vary"""
+BLOCK_COMMENTS = ["/**/", "/***/", "/* */", "/** */", "/*x*/", "/** TODO */", "/*TODO*/", "/* TODO(bob): x */", "/**\n * TODO y\n */", "/*\n*/",
+                  "/* é */", "/*/ */", "/**/ /**/", "/* FIXME */", "/*:*/", "/*(*/", "/** @param x */"]
+LINE_COMMENTS = ["//", "// ", "//x", "// TODO", "//TODO(", "// FIXME(a): b", "///", "//*", "// é", "//TODO", "// todo:", "//:"]
+
+
+def render(tokens, rng, comments=None):
+    """tokens separated by blanks; a newline after ; { } so that lines (and columns) vary. With `comments` (a probability), block
+    and line comments of every small shape are put between tokens (comments are valid anywhere between two tokens)"""
     out, line = [], []
     for t in tokens:
         line.append(t)
+        if comments and rng.random() < comments:
+            if rng.random() < 0.6:
+                line.append(rng.choice(BLOCK_COMMENTS))
+            else:
+                line.append(rng.choice(LINE_COMMENTS))
+                out.append(" ".join(line))
+                line = []
+                continue
         if t in (";", "{", "}") and rng.random() < 0.8:
             out.append(" ".join(line))
             line = []
